@@ -41,11 +41,15 @@ COPY_CALLS = {'dict', 'list', 'tuple', 'set', 'frozenset', 'sorted', 'copy', 'de
 ALIASED_MUTABLE_ATTRS = {'methods', 'bound_apps', 'resources', 'middlewares', 'converters', 'path_args', 'endpoint_args'}
 
 
-def fresh_container(fl, fi, leaf, repo=None):
+def fresh_container(fl, fi, leaf, repo=None, _depth=0):
     """The value is a container allocated here: constructor / copy call, display, comprehension, concatenation, or the
     fresh result of an analysed helper.  A value handed out by an analysed helper that could not be followed is an
     analysis gap, not a judgement."""
     v = leaf.value
+    if leaf.opaque and isinstance(leaf.stmt, ast.AugAssign) and slot_key(leaf.stmt.target) is not None and _depth < 3:
+        # x += more: in place on whatever x held before -- still this activation's object if that was
+        before = fl.leaves(leaf.stmt.target, leaf.stmt)
+        return bool(before) and all(b.stmt is not leaf.stmt and fresh_container(fl, fi, b, repo, _depth + 1) for b in before)
     if leaf.opaque or (isinstance(v, ast.Call) and repo is not None and effects.callee_of(repo, fi, v) is not None):
         call = v if isinstance(v, ast.Call) else None
         callee = effects.callee_of(repo, fi, call) if (call is not None and repo is not None) else None
@@ -146,10 +150,14 @@ def run(rep):
                                 if isinstance(e, ast.Name) and isinstance(s.value, ast.Attribute) is False:
                                     pass
             n = 0
+            fl_ = Flow(fi)
             for e in effects.effects_in(fi.node):
                 n += 1
                 root = e.root
                 ok = root == 'self' or (root in fresh and root not in alias) or root in ('kwargs', 'kw')
+                if not ok and root is not None and root not in alias and root != 'self':
+                    # flow-sensitive: at this statement the local can only hold an object built here
+                    ok = effects.fresh_at(repo, fi, fl_, root, stmt_of(fi.mod, e.node))
                 if root in alias:
                     ok = False
                 rep.check('R11.a', fkey(fi, e.node), ok, 'writes %s (own / fresh object)' % root if ok else
@@ -325,6 +333,10 @@ def run(rep):
             st = nd.stmt
             if st in ins or isinstance(st, ast.Return) or (isinstance(st, ast.AugAssign) and isinstance(st.value, ast.Constant)):
                 continue
+            if isinstance(st, ast.Assign) and len(st.targets) == 1 and isinstance(st.targets[0], ast.Name) and \
+                    all(isinstance(n, (ast.Name, ast.Constant, ast.BinOp, ast.Add, ast.Sub, ast.Load)) for n in ast.walk(st.value)) and \
+                    all(isinstance(n.value, int) for n in ast.walk(st.value) if isinstance(n, ast.Constant)):
+                continue      # position arithmetic on locals (index = index + 1)
             bad.append(nd)
         rep.check('R11.b', fkey(ad, 'after first insert'), not bad, 'after the first insertion only insertions and index arithmetic follow' if not bad else
                   'statements that may fail follow the first insertion: %s' % [short(b.stmt) for b in bad if b.stmt is not None], app, ins[0])
@@ -339,9 +351,28 @@ def run(rep):
 
     # ---- R11.c -----------------------------------------------------------
     def r11c():
-        from .c06 import routes_writer_ok
+        from .c06 import routes_writer_ok, ROUTES_WRITERS_ALLOWED
+
+        class _As(object):          # a helper judged as the function it is a part of
+            def __init__(self, qualname):
+                self.qualname = qualname
+
+        class _Store(object):       # ``self.routes, x = [], y``: the element assigned to the routing table
+            def __init__(self, e, value):
+                self.kind, self.method, self.target, self.chain = e.kind, e.method, e.target, e.chain
+                self.node = ast.copy_location(ast.Assign(targets=[e.target], value=value), e.node)
         for m, fi, e in routes_writers(repo):
             ok = routes_writer_ok(m, fi, e)
+            if not ok:
+                # the same write, made by a private helper the permitted writer was split into / in a tuple assignment
+                e2 = e
+                if e.kind == 'store' and isinstance(e.node, ast.Assign):
+                    for d in Flow(fi).defs.get(slot_key(e.target) or '', []):
+                        if d.stmt is e.node and d.kind == 'assign' and d.idx is None and d.value is not e.node.value:
+                            e2 = _Store(e, d.value)
+                for (gm, gq) in ROUTES_WRITERS_ALLOWED:
+                    if gm == m.name and fi.key in hc.closure({'%s::%s' % (gm, gq)}):
+                        ok = ok or routes_writer_ok(m, _As(gq), e2)
             rep.check('R11.c', 'writer::%s::%s' % (fi.key, norm(e.node)[:70]), ok, 'set-up write of a routing table' if ok else
                       '%s writes a routing table' % fi.key, m, e.node)
     rep.guard(r11c)
@@ -417,10 +448,21 @@ def run(rep):
         cfl = Flow(cc)
         st_ = [s for s in stmts_of(cc.node) if isinstance(s, ast.Assign) and norm(s.targets[0]).startswith('linecache.cache[')]
 
+        def from_source(e, at, depth=0):
+            """mentions the generated text, directly or through named temporaries"""
+            for n in ast.walk(e):
+                if isinstance(n, ast.Name) and isinstance(n.ctx, ast.Load):
+                    if n.id == cc.params()[0]:
+                        return True
+                    d = cfl.single_def(n.id, at) if depth < 6 else None
+                    if d is not None and from_source(d.value, d.stmt, depth + 1):
+                        return True
+            return False
+
         def hashed(e, at, depth=0):
             """the expression is built from a hashlib digest of the generated text (through named temporaries)"""
             for n in ast.walk(e):
-                if isinstance(n, ast.Call) and norm(n.func).startswith('hashlib.') and cc.params()[0] in [x.id for a in n.args for x in ast.walk(a) if isinstance(x, ast.Name)]:
+                if isinstance(n, ast.Call) and norm(n.func).startswith('hashlib.') and any(from_source(a, at) for a in n.args):
                     return True
                 if isinstance(n, ast.Name) and isinstance(n.ctx, ast.Load) and depth < 6:
                     d = cfl.single_def(n.id, at)
